@@ -169,7 +169,7 @@ Print Assumptions C18_builder_layer_refines_core.
 (* one call of buildWithLimit: only fetched entries are popped; whatever is left behind has no high priority and no
    priority above a popped entry; the popped, non-cancelled entries get exactly the next consecutive ids, in
    order; cancelled ones get none *)
-Theorem C18_build_round : forall x takes x', xstep x (XBuildRound takes) = Some x' ->
+Theorem C18_build_round : forall x lim takes x', xstep x (XBuildRound lim takes) = Some x' ->
   (forall t, In t takes -> In t (inb x))
   /\ (forall r, In r (inb x') -> In r (inb x) /\ ~ In r takes /\ pri x r < high_pri /\ forall t, In t takes -> pri x r <= pri x t)
   /\ (let ps := build_pairs (ent (core x)) (next_id (core x)) takes in
@@ -178,10 +178,24 @@ Theorem C18_build_round : forall x takes x', xstep x (XBuildRound takes) = Some 
       /\ map fst ps = seq (S (next_id (core x))) (length ps)
       /\ (forall i c, In (i, c) ps -> In c takes /\ e_canceled (ent (core x) c) = false)).
 Proof.
-  intros x takes x' H. destruct (round_discipline _ _ _ H) as (A & B & _). split; auto. split; auto.
-  exact (round_ids_consecutive _ _ _ H).
+  intros x lim takes x' H. destruct (round_discipline _ _ _ _ H) as (A & B & _). split; auto. split; auto.
+  exact (round_ids_consecutive _ _ _ _ H).
 Qed.
 Print Assumptions C18_build_round.
+
+(* buildWithLimit(limit) loses nothing: every entry that was in the builder is afterwards either popped-and-cancelled
+   (retired, never sent), or popped and given an id (recorded in the allocation log; from there only Store / InitFail
+   apply), or NOT popped and still in the builder, untouched, for the next round.  And entries are only left behind when
+   the quota is used up: with the default (unbounded) limit nothing is left, with available() = l at least l normal
+   non-cancelled entries were popped. *)
+Theorem C18_round_nothing_lost : forall x lim takes x', xstep x (XBuildRound lim takes) = Some x' ->
+  (forall c, In c (inb x) ->
+     (In c takes /\ e_canceled (ent (core x) c) = true /\ e_st (ent (core x') c) = Retired)
+     \/ (In c takes /\ e_canceled (ent (core x) c) = false /\ exists i, e_st (ent (core x') c) = Built i /\ In (i, c) (alloc (core x')))
+     \/ (~ In c takes /\ In c (inb x') /\ ent (core x') c = ent (core x) c))
+  /\ (inb x' = [] \/ exists l, lim = Some l /\ l <= counted (ent (core x)) (pri x) takes).
+Proof. intros x lim takes x' H. split; [exact (round_nothing_lost _ _ _ _ H) | exact (round_quota _ _ _ _ H)]. Qed.
+Print Assumptions C18_round_nothing_lost.
 
 (* Close and the asynchronous API (after fix 000f10e).  (1) When batchSendLoop returns it drains the channel: every
    asynchronous entry still queued there gets exactly the closed error.  (2) An asynchronous entry that is (or gets)
@@ -276,11 +290,21 @@ Definition xget (o : option sys) : sys := match o with Some x => x | None => xin
 Definition ex_builder : list xlabel :=
   [XSubmit 1 0 0 false; XSubmit 2 0 12 false; XSubmit 3 1 5 false; XCore (Abort 3 ECtx); XFetch 1; XFetch 2; XFetch 3].
 Example ex_round : let x := xget (xrun xinit ex_builder) in
-  xstep x (XBuildRound [1]) = None /\ xstep x (XBuildRound [2]) <> None
-  /\ alloc (core (xget (xstep x (XBuildRound [2; 3; 1])))) = [(2, 1); (1, 2)]
-  /\ e_st (ent (core (xget (xstep x (XBuildRound [2; 3; 1])))) 3) = Retired
-  /\ inb (xget (xstep x (XBuildRound [2]))) = [3; 1].
+  xstep x (XBuildRound (Some 0) [1]) = None /\ xstep x (XBuildRound (Some 0) [2]) <> None
+  /\ xstep x (XBuildRound None [2]) = None /\ xstep x (XBuildRound (Some 1) [2; 3]) = None
+  /\ alloc (core (xget (xstep x (XBuildRound None [2; 3; 1])))) = [(2, 1); (1, 2)]
+  /\ e_st (ent (core (xget (xstep x (XBuildRound None [2; 3; 1])))) 3) = Retired
+  /\ inb (xget (xstep x (XBuildRound (Some 0) [2]))) = [3; 1].
 Proof. vm_compute. repeat split; discriminate. Qed.
+
+(* limit 2, one batch of priorities [16,0,0,0]: Take(2) pops {16,0} (count 1 < 2), the second Take(2) pops the other two:
+   all four are built (the quota is soft); leaving any of them behind AND dropping it is not a step *)
+Example ex_limit_two_takes : let x := xget (xrun xinit
+    [XSubmit 1 0 16 false; XSubmit 2 0 0 false; XSubmit 3 0 0 true; XSubmit 4 0 0 true; XFetch 1; XFetch 2; XFetch 3; XFetch 4]) in
+  let x' := xget (xstep x (XBuildRound (Some 2) [1; 2; 3; 4])) in
+  alloc (core x') = [(4, 4); (3, 3); (2, 2); (1, 1)] /\ inb x' = []
+  /\ inb (xget (xstep x (XBuildRound (Some 2) [1; 2; 3]))) = [4] /\ e_st (ent (core (xget (xstep x (XBuildRound (Some 2) [1; 2; 3])))) 4) = Queued.
+Proof. vm_compute. auto. Qed.
 
 (* an asynchronous call queued when the send loop exits is failed with the closed error; one enqueued after the exit
    satisfies the hypotheses of part (3) and is failed by the sender's re-check *)
